@@ -701,7 +701,9 @@ func ZZVerifC19() {
 		pprof.StartCPUProfile(f)
 		defer pprof.StopCPUProfile()
 	}
-	debug.SetGCPercent(1000) // live heap is tiny; the code under test allocates heavily
+	// the code under test allocates heavily per call while the live heap stays small
+	debug.SetGCPercent(400)
+	debug.SetMemoryLimit(3 << 30)
 	thorough := evid.Thorough()
 	levels := []c19Level{
 		{M: 1, Alphabet: "full", CtxHi: true, Mllama: true},
